@@ -30,6 +30,7 @@ INVARIANT DivTheoremMesh
 INVARIANT VolumePositive
 INVARIANT PerSpace
 INVARIANT ProductGradient
+INVARIANT CoarseMeasure
 INVARIANT BoundaryFieldTangential
 INVARIANT BoundarySurfGrad
 INVARIANT EmitEval
